@@ -16,18 +16,19 @@ Fixpoint grid_close_w (a b : list (list float)) : bool :=
   | _, _ => false
   end.
 
-(* cooling: (T_k, T_shelf, evaporative heat flux per column, T_{k+1}) *)
-Definition cool2_ok (P : @p2d float) Nz Nr rr (c : list (list float) * float * list float * list (list float)) : bool :=
-  let '(g, Tsh, qe, g') := c in grid_close (cool_step2 Fops P Nz Nr rr g Tsh qe) g'.
-(* solidification: (in-place?, T, w, T_shelf, q_e per column, T', w') *)
-Definition solid2_ok (P : @p2d float) Nz Nr rr
-  (c : bool * list (list float) * list (list float) * float * list float * list (list float) * list (list float)) : bool :=
-  let '(ip, g, w, Tsh, qe, g', w') := c in
-  let '(mg, mw) := solid_step2 Fops P Nz Nr rr ip g w Tsh qe in grid_close mg g' && grid_close_w mw w'.
+(* cooling: (T_k, T_shelf, time of the step, vapour flux per column, T_{k+1}) *)
+Definition cool2_ok (P : @p2d float) Nz Nr rr (visf : bool) (ts td dHe : float)
+  (c : list (list float) * float * float * list float * list (list float)) : bool :=
+  let '(g, Tsh, t, fl, g') := c in grid_close (cool_step2_t Fops P Nz Nr rr visf t ts td dHe g Tsh fl) g'.
+(* solidification: (in-place?, T, w, T_shelf, time, vapour flux per column, T', w') *)
+Definition solid2_ok (P : @p2d float) Nz Nr rr (visf : bool) (ts td dHe : float)
+  (c : bool * list (list float) * list (list float) * float * float * list float * list (list float) * list (list float)) : bool :=
+  let '(ip, g, w, Tsh, t, fl, g', w') := c in
+  let '(mg, mw) := solid_step2_t Fops P Nz Nr rr ip visf t ts td dHe g w Tsh fl in grid_close mg g' && grid_close_w mw w'.
 
 Definition sn2d_case_ok
-  (c : @p2d float * nat * nat * list float
-       * list (list (list float) * float * list float * list (list float))
-       * list (bool * list (list float) * list (list float) * float * list float * list (list float) * list (list float))) : bool :=
-  let '(P, Nz, Nr, rr, cools, solids) := c in
-  forallb (cool2_ok P Nz Nr rr) cools && forallb (solid2_ok P Nz Nr rr) solids.
+  (c : @p2d float * nat * nat * list float * bool * float * float * float
+       * list (list (list float) * float * float * list float * list (list float))
+       * list (bool * list (list float) * list (list float) * float * float * list float * list (list float) * list (list float))) : bool :=
+  let '(P, Nz, Nr, rr, visf, ts, td, dHe, cools, solids) := c in
+  forallb (cool2_ok P Nz Nr rr visf ts td dHe) cools && forallb (solid2_ok P Nz Nr rr visf ts td dHe) solids.
